@@ -822,7 +822,7 @@ pub fn run_c20(rep: &Report) -> i32 {
     let cov = J::obj()
         .set("evaluations", J::i(ev.max(1)))
         .set("distinct_nontrivial", J::i(rep.get("builds")))
-        .set("rule", J::s("shape families (no patterns, only empty patterns, duplicates, all 256 byte values, 126/127/128/130/256 children of one state, 300-byte patterns, 100/101/300/1000 (thorough: 5000) patterns, deep suffix chains, a^k, binary tree, boundary and non-ASCII bytes) x the ENTIRE builder-option product (3 match kinds x 4 kinds x 3 start kinds x folding x prefilter x dense depth {0,1,3,10^6} x byte classes = 1152; families > 400 patterns: the 72 combinations of the first four options). Each build must succeed without panic; returned kind == requested kind; patterns_len, min/max pattern length, match_kind, start_kind mirror the input; per-id pattern_len on the three low-level types (also through their direct builders); searching patterns as haystacks returns SPEC's (pid, span) with pid the 0-based input position; standard: overlapping search lists every pattern under its own id. Every configuration is a distinct real build"))
+        .set("rule", J::s("shape families (no patterns, only empty patterns, duplicates, all 256 byte values, 126/127/128/130/256 children of one state, 300-byte patterns, patterns of 254..258 bytes alone / first / middle / last, 64..194 prefix-free patterns, 100/101/300/1000 (thorough: 5000) patterns, deep suffix chains, a^k, binary tree, boundary and non-ASCII bytes) x the ENTIRE builder-option product (3 match kinds x 4 kinds x 3 start kinds x folding x prefilter x dense depth {0,1,3,10^6} x byte classes = 1152; families > 400 patterns: the 72 combinations of the first four options). Each build must succeed without panic; returned kind == requested kind; patterns_len, min/max pattern length, match_kind, start_kind mirror the input; per-id pattern_len on the three low-level types (also through their direct builders); searching patterns as haystacks returns SPEC's (pid, span) with pid the 0-based input position; standard: overlapping search lists every pattern under its own id. Every configuration is a distinct real build"))
         .set("families", J::Arr(rep.set_members("families").into_iter().map(J::s).collect()))
         .set("exhaustive", J::Bool(true))
         .set("design_ref", J::s("5, 7 (C20)"));
